@@ -424,7 +424,8 @@ func (w *World) enumPaths(fn *ssa.Function, o EnumOpts) EnumResult {
 					if name == "" {
 						name = ph.Name()
 					}
-					if v == ssa.Value(ph) {
+					if v == ssa.Value(ph) || w.Resolve(v) == ssa.Value(ph) {
+						// (directly, or through the phi of a loop-post block that merges `continue` edges)
 						last.BackPhi[name] = "<unchanged>"
 					} else if r, ok := f.phi[ph]; ok && w.Resolve(v) == r {
 						last.BackPhi[name] = "<unchanged>"
@@ -507,7 +508,9 @@ func (w *World) enumPaths(fn *ssa.Function, o EnumOpts) EnumResult {
 						}
 					}
 					selfRef := false
-					if in2, ok := v.(ssa.Instruction); ok {
+					if _, isPhi := v.(*ssa.Phi); isPhi {
+						// another phi (e.g. the loop header's, seen from the loop-post block) is a name for a value, not a computation on this one
+					} else if in2, ok := v.(ssa.Instruction); ok {
 						for _, op := range in2.Operands(nil) {
 							if *op == ssa.Value(ph) {
 								selfRef = true
